@@ -2,13 +2,14 @@
 #include "h_common.h"
 #include <m4ri/mp.h>
 const char *prop_id = "C16";
-typedef struct { int kind, m, l, n, param, team; } scen_t;
+typedef struct { int kind, m, l, n, param, team, nested; } scen_t;
 enum { F_MUL_MP, F_ADDMUL_MP, F_MUL, F_M4RM, F_ECH, F_ADDMUL_M4RM, F_NK };
 static const char *fname[] = {"mzd_mul_mp", "mzd_addmul_mp", "mzd_mul", "mzd_mul_m4rm", "mzd_echelonize_m4ri", "mzd_addmul_m4rm"};
 static scen_t SC[4096]; static int nsc = 0, cur = 0; static char NAME[200];
 static pm *A, *B, *C0, *REFM; static int REFRANK; static uint64_t GOTD; static int GOTRANK;
 static int g_tier = 0, g_teams_all = 0;
-static void add(int kind, int m, int l, int n, int param, int team) { if (nsc < 4096) SC[nsc++] = (scen_t){kind, m, l, n, param, team}; }
+static void add(int kind, int m, int l, int n, int param, int team) { if (nsc < 4096) SC[nsc++] = (scen_t){kind, m, l, n, param, team, 1}; }
+static void add_nested(int kind, int m, int l, int n, int param, int team, int nested) { if (nsc < 4096) SC[nsc++] = (scen_t){kind, m, l, n, param, team, nested}; }
 void hb_args(int argc, char **argv) {
   int tmin = 1, tmax = 16;
   for (int i = 1; i < argc; i++) { if (!strcmp(argv[i], "--tier=thorough")) g_tier = 1; if (!strncmp(argv[i], "--teams=", 8)) { sscanf(argv[i] + 8, "%d-%d", &tmin, &tmax); g_teams_all = 1; } }
@@ -20,6 +21,8 @@ void hb_args(int argc, char **argv) {
       if (team <= 4) { add(F_ADDMUL_MP, 131, 129, 200, 64, team); add(F_ECH, 1100, 0, 200, 1, team); add(F_M4RM, 1537, 70, 65, 3, team); }
       if (team == 2 || team == 16) add(F_ECH, 1540, 0, 130, 0, team);
     }
+    /* nested regions enabled: the sections of mzd_mul_mp start real inner teams inside the M4RM base case */
+    add_nested(F_MUL_MP, 1200, 130, 1160, 512, 2, 2);
     return;
   }
   for (int ti = 0; ti < 16; ti++) {
@@ -31,12 +34,14 @@ void hb_args(int argc, char **argv) {
     /* internally parallel loops: > 512 rows so that the static chunks are spread over the threads */
     add(F_M4RM, 1025, 64, 64, 0, team); add(F_M4RM, 1537, 70, 65, 3, team); add(F_ADDMUL_M4RM, 1030, 65, 64, 0, team); add(F_MUL, 1100, 64, 130, 0, team);
     add(F_ECH, 1100, 0, 200, 1, team); add(F_ECH, 1540, 0, 130, 0, team); add(F_ECH, 520, 0, 520, 1, team);
+    if (team >= 2 && team <= 4) { add_nested(F_MUL_MP, 1200, 700, 1160, 512, team, 2); add_nested(F_ADDMUL_MP, 1160, 650, 1200, 512, team, 2); add_nested(F_MUL_MP, 1200, 300, 1200, 512, team, 3); }
   }
 }
 int hb_nscenarios(void) { return nsc; }
-void hb_select(int s) { cur = s; scen_t *q = &SC[s]; snprintf(NAME, sizeof NAME, "%s(%dx%dx%d,p=%d)|threads=%d", fname[q->kind], q->m, q->l, q->n, q->param, q->team); icb_team_size = q->team;
+void hb_select(int s) { cur = s; scen_t *q = &SC[s]; snprintf(NAME, sizeof NAME, "%s(%dx%dx%d,p=%d)|threads=%d%s", fname[q->kind], q->m, q->l, q->n, q->param, q->team, q->nested > 1 ? (q->nested == 2 ? "|nested=2" : "|nested=3") : ""); icb_team_size = q->team; icb_nested_size = q->nested;
   /* teams of 2-3: every schedule within the preemption bound; 4-5: default schedule + every single deviation, with ALL section-to-thread assignments; larger: default + every single deviation */
-  icb_max_deviations = q->team <= 3 ? 1000 : 1; icb_free_sections = (q->team == 4 || q->team == 5);
+  icb_max_deviations = (q->team <= 3 && q->nested == 1) ? 1000 : 1;
+  if (q->nested > 1) icb_max_deviations = g_tier ? 1 : 0; /* nested teams: the race detector judges the default schedule (quick); plus every single deviation (thorough) */ icb_free_sections = (q->team == 4 || q->team == 5);
   icb_dev_kinds = (q->team >= 8 && !g_tier) ? ((1u << 1) | (1u << 2) | (1u << 3) | (1u << 9)) : 0xffffffffu; /* quick, large teams: deviate at fork / join / sections / thread-end decisions only */ }
 const char *hb_name(void) { return NAME; }
 const char *hb_property(void) { return "C16"; }
